@@ -160,3 +160,7 @@ pub trait ServerSocket {
         to: Self::Addr,
     ) -> impl Future<Output = Result<(), Self::Error>>;
 }
+
+#[cfg(all(test, feature = "pendulum_project_ntpd_rs_verif"))]
+#[path = "../../../verif/harness/statime_csptp/server.rs"]
+mod verif_server;
